@@ -7,6 +7,10 @@ class PeerEOF(Exception):
     pass
 
 
+class PeerProtocolError(Exception):
+    """what the real side wrote is not a frame / message of the published format"""
+
+
 class RefPeer(object):
     def __init__(self, sock, compress=True, threshold=C.COMPRESSION_THRESHOLD):
         self.sock = sock
@@ -66,9 +70,16 @@ class RefPeer(object):
         if not data:
             self.eof = True
             raise PeerEOF()
-        for body, flag, raw in self.parser.feed(data):
+        try:
+            frames = self.parser.feed(data)
+        except Exception as e:
+            raise PeerProtocolError("unparsable frame: %s: %s" % (type(e).__name__, e))
+        for body, flag, raw in frames:
             self.raw_in.append((body, flag, raw))
-            msg = C.parse_msg(body)
+            try:
+                msg = C.parse_msg(body)
+            except Exception as e:
+                raise PeerProtocolError("undecodable message (%d bytes, compressed=%s): %s: %s" % (len(body), flag, type(e).__name__, e))
             self.received.append((msg[0], msg[1]))
             self.inbox.append(msg)
         return True
